@@ -209,7 +209,7 @@ Proof.
   unfold v1_step at 1.
   destruct (split_ws 2 (rstrip l)) as [|name [|objtype [|location [|x r]]]]; try reflexivity.
   change [109; 111; 100]%N with s_mod.
-  destruct (str_eqb objtype s_mod); cbn [ibind]; rewrite insert_two_steps; rewrite IH; reflexivity.
+  destruct (str_eqb objtype s_mod); cbn [ibind negb]; rewrite insert_two_steps; rewrite IH; reflexivity.
 Qed.
 
 Theorem load_v1_src_eq r base : load_v1_src decode r base = load_v1 decode r base.
